@@ -140,16 +140,23 @@ def build_trace(instances, results, profile):
         nsteps = 0
         base = 0
         inner = []
+        optres = []
         ncand = 0
         nenum = 0
         status = "missing"
         wall = 0
         for e in evs:
-            if e["ev"] == "stage":
+            if e["ev"] == "optres":
+                optres.append({"ty": e["ty"], "cyc": e["cyc"]})
+            elif e["ev"] == "stage":
                 trace.append({"ev": "stage", "li": li, "pi": prev, "label": e["label"], "S": e["S"]})
                 prev = len(trace)
                 if e["label"] in idx:
                     idx[e["label"]] = prev
+                if e["label"] == "transopt":
+                    # hook H4: what the optimiser itself returned, next to what the pipeline carries on
+                    trace.append({"ev": "optres", "li": li, "pi": prev, "tr": optres})
+                    optres = []
                 if e["label"] == "ls_step":
                     nsteps += 1
             elif e["ev"] == "output":
